@@ -605,7 +605,8 @@ class TopWriter {
             return false;
         await this.subwriter.write(record);
         this.NW += 1;
-        return true;
+        // Report "full" right after the last allowed record so that the caller stops reading its input
+        return this.top_count === null || this.NW < this.top_count;
     }
 
     async finish() {
@@ -904,7 +905,7 @@ __USER_INIT_CODE__
 let NU = 0;
 let NR = 0;
 
-let stop_flag = false;
+let stop_flag = query_context.top_count === 0; // Nothing can be written with "LIMIT 0", so there is no need to read the input
 while (!stop_flag) {
     let record_a = await query_context.input_iterator.get_record();
     if (record_a === null)
